@@ -78,3 +78,24 @@ Theorem C20_context_rounding_monotone p emin_ m x y : (1 <= p)%Z -> m <> R05Up -
   (round_ctx p emin_ m x <= round_ctx p emin_ m y)%R.
 Proof. exact (round_ctx_monotone p emin_ m x y). Qed.
 Print Assumptions C20_context_rounding_monotone.
+
+(* ---- operand transformations on the model of the Context operations (no oracle involved) ---- *)
+From Apd Require Import Generated.Consts Model.Decimal Model.Context Proofs.SetExponent Proofs.Commute.
+Open Scope Z_scope.
+
+(* Sub(x, y) is Add(x, -y): the whole result (value, Condition, error), for every x, every non-NaN y (a NaN operand is
+   propagated with its own sign), every context *)
+Theorem C20_sub_is_add_of_negation est c x y : is_nan y = false ->
+  ctx_add est c x y true = ctx_add est c x (flip_sign y) false.
+Proof. exact (sub_is_add_of_negation est c x y). Qed.
+Print Assumptions C20_sub_is_add_of_negation.
+
+(* Add and Mul commute on finite operands inside the exponent limits: the whole result, every context and mode *)
+Theorem C20_add_commutes est c x y : form_of x = Finite -> form_of y = Finite -> Z.abs (exp x - exp y) <= MaxExponent ->
+  ctx_add est c x y false = ctx_add est c y x false.
+Proof. exact (add_commutes est c x y). Qed.
+Print Assumptions C20_add_commutes.
+Theorem C20_mul_commutes est c x y : form_of x = Finite -> form_of y = Finite -> in_lim (exp x) -> in_lim (exp y) ->
+  ctx_mul est c x y = ctx_mul est c y x.
+Proof. exact (mul_commutes est c x y). Qed.
+Print Assumptions C20_mul_commutes.
